@@ -13,14 +13,20 @@ RULE = ('histories = every valid sequence up to depth D over {B(i): build model 
         'models with the same table-form name; an Excel model), each history executed on fresh objects in one long-lived process; '
         'reference = the pure function model text -> bytes / probe -> value obtained once per model in a FRESH process; environment '
         'dimension: every model re-tabulated under all 24 iteration orders of every set built by the library (PermSet seam) and in fresh '
-        'processes under 10 hash seeds; Excel bytes under a frozen clock')
+        'processes under 10 hash seeds; Excel bytes under a frozen clock; sequences (2, thorough 3) of tabulations that re-use one set of Potential / '
+        'EAMPotential objects (memoised numpy callable, TableReader) over 8 targets x 2 grids, and of potable runs into one OUTPUT_FILE (16 model/size '
+        'variants); composed API potentials used as operands after evaluation; OUTPUT_FILE = /dev/stdout in a pipe; THREAD SCHEDULES: two real threads '
+        'tabulating at once under a cooperative scheduler - (a) switch points = evaluations of the model functions, every schedule with <= 2 '
+        'pre-emptions (A at its i-th, B at its j-th evaluation) for 14 target pairs, (b) switch point = any traced line of the library, one '
+        'pre-emption (B runs to completion), also with both threads writing ONE tabulation object')
 ASSUMPTIONS = [
     'set-order seam: module-level name `set` injected into config/_eam_potential_builder, _dlpoly_writeTABEAM, config/_config_parser, config/_tabulation_factories; a set built elsewhere whose order reaches the output is only covered by the hash-seed runs',
     'hash seeds {0,1,2,3,5,8,13,21,34,random}: the seeds control iteration order, all orders of the covered sets are enumerated by the seam',
     'bounded: 8 models, depth <= 3 (quick) / 4 (thorough)',
     'the xlsx container embeds creation/modification time stamps: byte identity is demanded under a frozen clock; the dependence on the wall clock itself is recorded as known finding F03',
 ]
-BOUNDS = {'quick': 'depth 4 over 36 operations; 24 set orders x 8 models; 10 hash seeds x 8 models', 'thorough': 'depth 5 (3 probes per model)'}
+BOUNDS = {'quick': 'histories depth 4 over 37 operations; 24 set orders x 8 models; 10 hash seeds x 8 models; reuse / output-file sequences of length 2; thread schedules: every i x five j per target pair, every 7th library line',
+          'thorough': 'histories depth 5 (3 probes per model); reuse / output-file sequences of length 3; thread schedules: every (i, j), every library line'}
 
 MODELS = {}
 MODELS['pairA'] = ("""[Tabulation]
